@@ -96,6 +96,17 @@ def per_text_objects_rule(ctx: Ctx, rid: str):
                             t = t.value
                         if isinstance(t, ast.Attribute) and isinstance(t.value, ast.Name) and t.value.id == "self":
                             written.setdefault(t.attr, m)
+            # containers created in __init__ are filled through aliases as well (`explicit = self._x; explicit.add(...)`): they
+            # count as written whenever any method mentions them
+            if "__init__" in ci.methods:
+                for x in own_nodes(ci.methods["__init__"]):
+                    if isinstance(x, (ast.Assign, ast.AnnAssign)) and x.value is not None and (
+                            isinstance(x.value, (ast.Dict, ast.List, ast.Set)) or (isinstance(x.value, ast.Call) and norm(x.value.func) in ("set", "dict", "list"))):
+                        for t in (x.targets if isinstance(x, ast.Assign) else [x.target]):
+                            if isinstance(t, ast.Attribute) and norm(t.value) == "self" and any(
+                                    isinstance(y, ast.Attribute) and y.attr == t.attr and norm(y.value) == "self"
+                                    for mn, m in ci.methods.items() if mn != "__init__" for y in own_nodes(m)):
+                                written.setdefault(t.attr, ci.methods["__init__"])
             reset = set()
             if entry is not None:
                 for x in entry.node.body:
@@ -118,8 +129,57 @@ def per_text_objects_rule(ctx: Ctx, rid: str):
         raise AnchorMissing(f"{parse.qual}: transform / build calls not found ({n})")
 
 
+def balanced_call_scan_rule(ctx: Ctx, rid: str):
+    """A macro call `${name arg ...}` may contain further calls in its arguments, so its end is the MATCHING brace: the scanner
+    keeps a depth counter (+1 on '{', -1 on '}').  A regular expression cannot match balanced braces: one that excludes braces
+    finds the innermost call first, one that stops at the first '}' cuts the outer call short -- either way moving text into a
+    macro that itself uses a macro changes the expansion."""
+    fn = ctx.repo.func("MacroProcessor._expand_once")
+    uses_re = []
+    for c in own_nodes(fn):
+        if isinstance(c, ast.Call) and isinstance(c.func, ast.Attribute) and c.func.attr in ("sub", "subn", "finditer", "findall", "search", "match", "split"):
+            recv = norm(c.func.value)
+            pats = []
+            if recv == "re" and c.args and isinstance(c.args[0], ast.Constant):
+                pats.append(c.args[0].value)
+            else:
+                # a compiled pattern kept on the class / module
+                nm = recv.split(".")[-1]
+                for m in ctx.repo.by_rel.values():
+                    for a in ast.walk(m.tree):
+                        if isinstance(a, (ast.Assign, ast.AnnAssign)) and a.value is not None and isinstance(a.value, ast.Call) and norm(a.value.func) == "re.compile" \
+                                and a.value.args and isinstance(a.value.args[0], ast.Constant) \
+                                and any(norm(t).split(".")[-1] == nm for t in (a.targets if isinstance(a, ast.Assign) else [a.target])):
+                            pats.append(a.value.args[0].value)
+            for pt in pats:
+                if isinstance(pt, str) and "$" in pt and "{" in pt:
+                    uses_re.append((c, pt))
+    ups, downs = [], []
+    for i in own_nodes(fn):
+        if isinstance(i, ast.If):
+            t = norm(i.test).replace('"', "'")
+            for st in i.body:
+                if isinstance(st, ast.AugAssign) and isinstance(st.target, ast.Name) and isinstance(st.value, ast.Constant) and st.value.value == 1:
+                    if "== '{'" in t and isinstance(st.op, ast.Add):
+                        ups.append(st.target.id)
+                    if "== '}'" in t and isinstance(st.op, ast.Sub):
+                        downs.append(st.target.id)
+    counter = set(ups) & set(downs)
+    if uses_re:
+        c, pt = uses_re[0]
+        ctx.ob(rid, f"{fn.qual}: macro calls are found with the pattern {pt!r}", (fn, c), False,
+               "a regular expression cannot find the matching brace of a call whose arguments contain further calls: nested calls are expanded "
+               "innermost-first (or the outer call is cut at the first '}'), so the same text written with and without a macro expands differently",
+               key=key_of_text(rid, fn.qual, "regex call scan"))
+        return
+    if not counter:
+        raise Inconclusive(f"{fn.qual}: neither a brace depth counter nor a pattern for macro calls found (scanner shape not interpreted)")
+    ctx.ob(rid, f"{fn.qual}: brace depth counter {sorted(counter)}", fn, True, "a call ends at its matching brace: outermost calls are expanded first")
+
+
 def run_extra(ctx: Ctx):
     per_text_objects_rule(ctx, "R15.10")
+    balanced_call_scan_rule(ctx, "R15.11")
     # ---------------------------------------------------------------- R15.9 answers never come from state that outlives the question
     from .common import process_state_rule
     process_state_rule(ctx, "R15.9", [ctx.repo.func("ProjectFileParser.parse")],
